@@ -147,11 +147,74 @@ def eval_history(case):
     return o
 
 
+CFG_TWIN = gen.Cfg(esc=False, odd=0.1, invalid=True, incomplete=False, max_ops=2, alphabet='aab  \t-', min_text=2, max_text=9, rich=True,
+                    cls_s=0.0, ansi_ctor=False)
+TWIN_NAMES = ['clip', 'ljust', 'rjust', 'center', 'zfill', 'replace', 'replace', 'strip', 'strip', 'lstrip', 'rstrip', 'rstrip', 'rmprefix',
+              'rmsuffix', 'rmsuffix', 'case', 'expandtabs', 'expandtabs']
+
+
+def eval_inplace_twin(case):
+    """in-place variants return the receiver itself and equal the non-in-place result (also ==, and what a later
+    concatenation shows), for one operation on a value with position-dependent formatting"""
+    o = Outcome()
+    try:
+        v1 = Interp().build_checked(case['p'])
+        v2 = Interp().build_checked(case['p'])
+    except BuilderInvalid:
+        o.skipped = 'builder_invalid'
+        return o
+    if not isinstance(v1, AnsiString):
+        o.skipped = 'not-mutable'
+        return o
+    op = dict(case['op'])
+    before = snap(v2)
+    outs = []
+    for v, ip in ((v1, True), (v2, False)):
+        op['ip'] = ip
+        try:
+            outs.append(('ok', apply_op(v, op, lambda x: (v if x['k'] == 'self' else (x['t'] if x['k'] == 'str' else Interp().build(x['p']))))))
+        except Exception as e:
+            if isinstance(e, Rejected):
+                o.skipped = 'rejected'
+                return o
+            if lib_frame(e)[0] != 'lib':
+                raise
+            outs.append(('exc', type(e).__name__))
+    what = '%s on %s' % ({k: x for k, x in case['op'].items() if k != 'ip'}, before[1:3])
+    if outs[0][0] != outs[1][0]:
+        o.fail('twin-outcome-differs:' + op['op'], '%s: in place %r, copy %r' % (what, outs[0], outs[1]))
+        return o
+    if outs[0][0] == 'exc':
+        return o
+    r1, r2 = outs[0][1], outs[1][1]
+    if r1 is not v1:
+        o.fail('inplace-not-receiver:' + op['op'], what)
+    if r2 is v2:
+        o.fail('result-is-receiver:' + op['op'], what)
+    if snap(v2) != before:
+        o.fail('mutated-receiver:' + op['op'], '%s: receiver of the non-in-place call changed' % what)
+    s1, s2 = snap(r1), snap(r2)
+    if s1 != s2:
+        o.fail('inplace-differs-from-copy:' + op['op'], '%s: in place %s (tail %r), copy %s (tail %r)' % (what, describe(r1), s1[4], describe(r2), s2[4]))
+    elif not (r1 == r2):
+        o.fail('inplace-not-eq-copy:' + op['op'], '%s: in-place result != non-in-place result although they look the same: %s' % (what, describe(r1)))
+    o.nontrivial = s2[1:3] != before[1:3]
+    o.key = [before[1], before[2], case['op']]
+    o.label(op['op'])
+    return o
+
+
+def strat_twin():
+    return st.fixed_dictionaries({'p': gen.prog(CFG_TWIN), 'op': gen.op(CFG_TWIN, 1, names=TWIN_NAMES)})
+
+
 def strat(maxs):
     return lambda: history(CFG, 3, maxs)
 
 
 SUBS = [
+    Sub('inplace_twin', eval_inplace_twin, strategy=strat_twin, quick=600, thorough=10000,
+        rule='one in-place-capable operation on a value with position-dependent formatting over a whitespace-rich alphabet: in-place vs copy'),
     Sub('history', eval_history, strategy=strat(12), quick=400, thorough=4000),
     Sub('history_long', eval_history, strategy=strat(30), quick=60, thorough=1500),
 ]
